@@ -359,7 +359,7 @@ func (c *Ctx) c17TypeGainsFields() {
 func runC17(c *Ctx) error {
 	c.c17TypeGainsFields()
 	c.Rep.Rule = "reload: one VM per history; 2..5 versions of a package with 1..5 functions and 1..3 methods whose bodies change, stay the same, appear in a later version or are left out of one; 8..37 steps of Load(version k) / Eval with an explicit import (reload of the current version, also of unchanged source) / capture of a function in a variable, a struct field, a slice element, of a bound method and of a bound method inside a struct field / new instance / call of everything captured and of every function and method by name / creation and formatting of fresh instances of every struct type by the current code / Bump, SetMode, instance Inc / read of the package variables (two without initialiser, two with); distinct = distinct history; non-trivial = at least two loads and one capture"
-	n := 60
+	n := 500
 	if c.Thorough() {
 		n = 20000
 	}
